@@ -21,7 +21,9 @@ def run_property(prop, tier, root=None, write=True, quiet=False):
     frames._cache.clear()
     exmap._DEFS.clear()
     ctx = Ctx(prop, tier, repo)
-    mod.run(ctx)
+    # anything a rule could not anchor, outside the per-rule wrappers, on a tree that differs from the reference tree: the
+    # rest of this property is not decided on this tree (on the reference tree itself it stays an analysis error)
+    ctx.attempt(prop, lambda: mod.run(ctx))
     from .props import precision
     if prop in precision.NUMERIC_PROPS:
         precision.run(ctx)
